@@ -182,7 +182,7 @@ func TestVerifC55Arch(t *testing.T) {
 	rec := kit.Start(t, "C55", "archfs")
 	defer rec.Finish()
 	env := rec.Env
-	n := env.Pick(120, 3000)
+	n := env.Pick(120, 1600)
 	for i := 0; i < n; i++ {
 		if !env.Mine(i) {
 			continue
@@ -320,11 +320,12 @@ func c55ArchCaseRun(t *testing.T, rec *kit.Rec, idx int, rng *kit.RNG) {
 
 	// ---- run the real archiver
 	repo := repository.TestRepository(t)
-	ctx, cancel := context.WithTimeout(context.Background(), 5*time.Minute)
+	ctx, cancel := context.WithTimeout(context.Background(), 30*time.Minute) // watchdog only: expiry makes the case inconclusive
 	defer cancel()
 	var parent *data.Snapshot
 	if c.Parent {
 		arch := New(repo, fs.NewLocal(), Options{})
+		arch.Error = func(_ string, err error) error { return err }
 		sn, _, _, err := arch.Snapshot(ctx, []string{root}, SnapshotOptions{Time: time.Now(), Hostname: "c55"})
 		if err != nil {
 			rec.Inconclusive("case %d: fault-free parent backup failed: %v", idx, err)
@@ -353,6 +354,10 @@ func c55ArchCaseRun(t *testing.T, rec *kit.Rec, idx int, rng *kit.RNG) {
 	sn, id, _, serr := arch.Snapshot(ctx, []string{root}, SnapshotOptions{Time: time.Now(), Hostname: "c55", ParentSnapshot: parent})
 
 	// ---- judge
+	if ctx.Err() != nil {
+		rec.Inconclusive("case %d: watchdog expired during the backup (overloaded machine?)", idx)
+		return
+	}
 	desc := map[string]any{"case": c}
 	sig := fmt.Sprintf("%d/%v/%v", idx, c.Script, c.Parent)
 	if serr != nil || sn == nil || id.IsNull() {
@@ -425,6 +430,10 @@ func c55ArchCaseRun(t *testing.T, rec *kit.Rec, idx int, rng *kit.RNG) {
 		return nil
 	}
 	if err := walk(*sn.Tree, "/"); err != nil {
+		if ctx.Err() != nil {
+			rec.Inconclusive("case %d: watchdog expired while reading the snapshot back", idx)
+			return
+		}
 		rec.Violation("snapshot-unreadable", fmt.Sprintf("snapshot of the incomplete backup cannot be read back: %v", err), desc)
 		rec.Case(sig, false)
 		return
